@@ -1,7 +1,7 @@
 //! unit: u17
 //! properties: C17
 //! note: the per-message acceptance tests of the network graph and its staleness pruning: a channel_update / node_announcement replaces stored information only with a strictly newer timestamp, an update above the channel's capacity (or above 21e6 BTC, or for another chain) is refused, and pruning drops exactly the directions older than two weeks and the channels left without a current direction
-//! trusted: R15 (deep slices): NetworkGraph::update_channel_internal, update_node_from_announcement_intern and remove_stale_channels_and_tracking_with_time work on IndexedMaps behind RwLocks with signature checks through secp256k1; the unit extracts, on every run and verbatim, (a) the body of the closure check_update_latest, (b) the body of the closure check_msg_sanity (its two calls of check_update_latest get the message as an explicit argument), (c) the chain-hash test and the MAX_VALUE_MSAT test at the top of update_channel_internal, (d) the timestamp test of the node announcement, (e) the per-channel body of the pruning loop (`scids_to_remove.insert(*scid)` becomes setting a flag); (f) pre_channel_announcement_validation_check with the map lookup replaced by its result as a parameter (R5); (g) verify_channel_announcement / verify_node_announcement whole, with the function-local macros expanded by rule (R8): `secp_verify_sig!(ctx, m, s, k, _)` -> `match ctx.verify_ecdsa(m, s, k) { Ok(_) => {}, Err(_) => return Err(..) }` and `get_pubkey_from_node_id!(n, _)` -> the external_body pubkey_from_node_id(n) with `?`-style early return, `hash_to_message!(message_sha256d_hash(..))` -> an uninterpreted hash of the contents; verify_ecdsa is external_body over the uninterpreted sig_valid; map lookups, storing the new information, removing channels from the node table and the order-independence of the whole graph are dropped and not claimed
+//! trusted: R15 (deep slices): NetworkGraph::update_channel_internal, update_node_from_announcement_intern and remove_stale_channels_and_tracking_with_time work on IndexedMaps behind RwLocks with signature checks through secp256k1; the unit extracts, on every run and verbatim, (a) the body of the closure check_update_latest, (b) the body of the closure check_msg_sanity (its two calls of check_update_latest get the message as an explicit argument), (c) the chain-hash test and the MAX_VALUE_MSAT test at the top of update_channel_internal, (d) the timestamp test of the node announcement, (e) the per-channel body of the pruning loop (`scids_to_remove.insert(*scid)` becomes setting a flag); (f) pre_channel_announcement_validation_check with the map lookup replaced by its result as a parameter (R5); (g) verify_channel_announcement / verify_node_announcement whole, with the function-local macros expanded by rule (R8): `secp_verify_sig!(ctx, m, s, k, _)` -> `match ctx.verify_ecdsa(m, s, k) { Ok(_) => {}, Err(_) => return Err(..) }` and `get_pubkey_from_node_id!(n, _)` -> the external_body pubkey_from_node_id(n) with `?`-style early return, `hash_to_message!(message_sha256d_hash(..))` -> an uninterpreted hash of the contents; verify_ecdsa is external_body over the uninterpreted sig_valid; (h) the choice of the signing node of a channel_update (`.as_slice()` dropped, R5); map lookups, storing the new information, removing channels from the node table and the order-independence of the whole graph are dropped and not claimed
 //! trusted: env: ChannelInfo {one_to_two, two_to_one, capacity_sats, announcement_received_time}, ChannelUpdateInfo {last_update}, UnsignedChannelUpdate {chain_hash, timestamp, channel_flags, htlc_maximum_msat}, NodeAnnouncementInfo {last_update} are field skeletons; ChainHash is an opaque identity; LightningError loses its text and action (R8)
 use vstd::prelude::*;
 verus! {
@@ -258,6 +258,35 @@ pub struct NodeAnnouncement { pub signature: Signature, pub contents: UnsignedNo
 //@ret r
 //@ensures P C17 a-node-announcement-is-authentic-only-if-its-signature-verifies-against-the-announced-node-id
     r is Ok <==> (key_of(msg.contents.node_id) is Some && sig_valid(node_ann_hash(msg.contents), msg.signature, key_of(msg.contents.node_id)->Some_0)),
+//@end
+
+// (h) which node must have signed a channel_update: the node the direction bit names
+pub struct UpdChannelInfo { pub node_one: NodeId, pub node_two: NodeId }
+//@extract lightning/src/routing/gossip.rs :: impl NetworkGraph :: fn update_channel_internal
+//@strip msgs
+//@slice R15
+    Some(channel) => { check_msg_sanity(channel)?; let node_id = $choice; if sig.is_some() {
+//@with
+    fn signer_of_channel_update<'a>(msg: &UnsignedChannelUpdate, channel: &'a UpdChannelInfo) -> &'a NodeId { $choice }
+//@rw R5 *
+    .as_slice()
+//@with
+    
+//@rw R5
+    channel.node_two
+//@with
+    &channel.node_two
+//@rw R5
+    channel.node_one
+//@with
+    &channel.node_one
+//@ret r
+//@ensures P C17 a-channel-update-must-be-signed-by-the-node-whose-direction-it-updates
+    *r == (if msg.channel_flags & 1 == 1 { channel.node_two } else { channel.node_one }),
+//@mutant update_verified_against_the_other_nodes_key
+    if msg.channel_flags & 1 == 1 { channel.node_two.as_slice() } else { channel.node_one.as_slice() }
+//@with
+    if msg.channel_flags & 1 == 1 { channel.node_one.as_slice() } else { channel.node_two.as_slice() }
 //@end
 }
 fn main() {}
